@@ -38,6 +38,26 @@ type gOp struct {
 	Len uint32 `json:"len,omitempty"`
 	AF  uint32 `json:"af,omitempty"`
 	ID  uint32 `json:"id"`
+	// Pad (REALPATH / READLINK only): the path sent is P with its last component lengthened by 'p's to a total of
+	// Pad bytes, so that programs with paths of 100+ KiB (whose NAME replies carry the path twice) stay small as JSON.
+	Pad uint32 `json:"pad,omitempty"`
+}
+
+// pth is the path a path request names: abs(P), lengthened to Pad bytes where Pad asks for more.
+func (o gOp) pth(abs func(string) string) string {
+	s := abs(o.P)
+	if int(o.Pad) > len(s) {
+		s += strings.Repeat("p", int(o.Pad)-len(s))
+	}
+	return s
+}
+
+// gKeyPath is the form in which a path appears in the key of an instrumented call: itself, unless it is very long.
+func gKeyPath(p string) string {
+	if len(p) <= 300 {
+		return p
+	}
+	return fmt.Sprintf("%s…(%d bytes)", p[:40], len(p))
 }
 
 type gProg struct {
@@ -74,7 +94,11 @@ func (o gOp) text() string {
 		s += ")"
 	}
 	if o.P != "" {
-		s += "(" + o.P + ")"
+		s += "(" + o.P
+		if o.Pad > 0 {
+			s += fmt.Sprintf("…%d", o.Pad)
+		}
+		s += ")"
 	}
 	return fmt.Sprintf("%s#%d", s, o.ID)
 }
@@ -90,6 +114,9 @@ func (p gProg) shape() string {
 		}
 		if strings.HasPrefix(o.P, "missing") {
 			b.WriteString(":missing")
+		}
+		if o.Pad > 0 {
+			b.WriteString(":long")
 		}
 	}
 	return b.String()
@@ -158,10 +185,21 @@ func gDirEntries(name string) []string {
 		n = 0
 	case "d2":
 		n = 150
+	case "dhuge": // request server only: a full batch of 100 such entries makes a NAME reply of about 290 KB
+		n = 120
+	case "dwide": // names as long as a file system takes them: a batch of 128 makes a NAME reply of about 80 KB
+		n = 130
+	}
+	tail := ""
+	switch name {
+	case "dhuge":
+		tail = strings.Repeat("n", 1396)
+	case "dwide":
+		tail = strings.Repeat("n", 246)
 	}
 	var out []string
 	for i := 0; i < n; i++ {
-		out = append(out, fmt.Sprintf("e%03d", i))
+		out = append(out, fmt.Sprintf("e%03d", i)+tail)
 	}
 	return out
 }
@@ -173,6 +211,9 @@ func gIsMissing(name string) bool                     { return strings.HasPrefix
 func gWriteData(name string, off int64, n int) []byte { return gContent("w!"+name, off, n) }
 
 var gOldTime = time.Unix(1_000_000_000, 0)
+
+// gLongTarget is the target of the links named lnkmax…: the longest a file system stores without complaint.
+var gLongTarget = strings.Repeat("t", 4000)
 
 // gFutureAtime is an access time later than any change time of this run, so that a relatime mount never
 // rewrites it when a file is read (ATTRS replies of two runs stay comparable byte for byte).
@@ -210,9 +251,9 @@ func (o gOp) frame(abs func(string) string, h string) []byte {
 	case "rmdir":
 		return wire.Req(wire.Rmdir, o.ID, wire.B{}.Str(abs(o.P)))
 	case "realpath":
-		return wire.Req(wire.Realpath, o.ID, wire.B{}.Str(abs(o.P)))
+		return wire.Req(wire.Realpath, o.ID, wire.B{}.Str(o.pth(abs)))
 	case "readlink":
-		return wire.Req(wire.Readlink, o.ID, wire.B{}.Str(abs(o.P)))
+		return wire.Req(wire.Readlink, o.ID, wire.B{}.Str(o.pth(abs)))
 	case "setstat":
 		return wire.Req(wire.Setstat, o.ID, wire.B{}.Str(abs(o.P)).Raw(attrs.Block()))
 	case "mkdir":
@@ -397,9 +438,9 @@ func gRoutes(p gProg, abs func(string) string) []gRoute {
 			case "open":
 				r.Sim.Gate = num("open:Get:" + pp)
 			case "realpath":
-				r.Sim.Gate = num("realpath:" + pp)
+				r.Sim.Gate = num("realpath:" + gKeyPath(o.pth(abs)))
 			case "readlink":
-				r.Sim.Gate = num("readlink:" + pp)
+				r.Sim.Gate = num("readlink:" + gKeyPath(o.pth(abs)))
 			default:
 				m := map[string]string{"remove": "Remove", "rmdir": "Rmdir", "setstat": "Setstat", "mkdir": "Mkdir", "rename": "Rename",
 					"symlink": "Symlink", "statvfs": "StatVFS", "posixrename": "PosixRename", "hardlink": "Link"}[o.K]
@@ -644,7 +685,7 @@ func (g *gRS) Lstat(r *sftp.Request) (sftp.ListerAt, error) {
 }
 
 func (g *gRS) RealPath(p string) (string, error) {
-	c := g.hub.enter("RealPath", p, "realpath:"+p, true, 0, nil, true)
+	c := g.hub.enter("RealPath", gKeyPath(p), "realpath:"+gKeyPath(p), true, 0, nil, true)
 	err := gPathErr(p)
 	g.hub.leave(c, 0, err, nil)
 	if err != nil {
@@ -654,11 +695,17 @@ func (g *gRS) RealPath(p string) (string, error) {
 }
 
 func (g *gRS) Readlink(p string) (string, error) {
-	c := g.hub.enter("Readlink", p, "readlink:"+p, true, 0, nil, true)
+	c := g.hub.enter("Readlink", gKeyPath(p), "readlink:"+gKeyPath(p), true, 0, nil, true)
 	err := gPathErr(p)
 	g.hub.leave(c, 0, err, nil)
 	if err != nil {
 		return "", err
+	}
+	switch {
+	case len(p) > 300: // a link with a very long name has a target of the same length
+		return "/" + strings.Repeat("t", len(p)-1), nil
+	case strings.HasPrefix(path.Base(p), "lnkmax"): // as on a file system: a target of nearly PATH_MAX bytes
+		return gLongTarget, nil
 	}
 	return "/s0", nil
 }
@@ -762,6 +809,9 @@ func gBuildTree(root string, p gProg) error {
 			return nil
 		}
 		done[name] = true
+		if strings.HasPrefix(name, "lnkmax") {
+			return os.Symlink(gLongTarget, filepath.Join(root, name))
+		}
 		if gIsDirName(name) {
 			return mkdir(name)
 		}
